@@ -1449,7 +1449,8 @@ class AstEval:
     async def ast_global(self, arg):
         """Execute global statement."""
         if not self.curr_func:
-            raise SyntaxError("global statement outside function")
+            # legal at module level (every name is global there already)
+            return
         for var_name in arg.names:
             self.curr_func.global_names.add(var_name)
 
